@@ -767,6 +767,14 @@ func TestTableNested(t *testing.T) {
 		ir.Bin(ir.OpIn, P, ir.Access(C, "s")),
 		ir.Bin(ir.OpContains, ir.Access(C, "s"), ir.Lit(ir.Ent("T1", "g"))),
 		ir.Bin(ir.OpAnd, ir.Is(P, "T0"), ir.Bin(ir.OpContainsAny, ir.Access(C, "s"), ir.SetE(ir.Lit(ir.Ent("T1", "g")), ir.Lit(ir.Ent("T0", "zz"))))),
+		// a set / record *literal* wrapped around a context value that holds a nested unknown, consumed whole, behind a guard
+		// that is itself unknown (so that the residual of the operator - not the original condition - is what gets used)
+		ir.Bin(ir.OpAnd, ir.Is(P, "T0"), ir.Bin(ir.OpContains, ir.SetE(ir.Access(C, "x")), ir.Lit(rec1))),
+		ir.Bin(ir.OpOr, ir.Is(P, "T1"), ir.Bin(ir.OpContains, ir.SetE(ir.Access(C, "x")), ir.Lit(rec1))),
+		ir.If(ir.Is(P, "T0"), ir.Bin(ir.OpContains, ir.SetE(ir.Access(C, "x"), ir.Access(C, "d")), ir.Lit(rec1)), ir.Lit(ir.Bool(false))),
+		ir.Bin(ir.OpAnd, ir.Is(P, "T0"), ir.Bin(ir.OpEq, ir.RecE([]string{"r"}, []*ir.Expr{ir.Access(C, "x")}), ir.RecE([]string{"r"}, []*ir.Expr{ir.Lit(rec1)}))),
+		ir.Bin(ir.OpEq, ir.RecE([]string{"r"}, []*ir.Expr{ir.Access(C, "x")}), ir.RecE([]string{"r"}, []*ir.Expr{ir.RecE([]string{"a"}, []*ir.Expr{ir.Access(ir.Access(C, "d"), "a")})})),
+		ir.Bin(ir.OpAnd, ir.Is(P, "T0"), ir.Bin(ir.OpContainsAll, ir.SetE(ir.Access(C, "x"), ir.Lit(rec1)), ir.SetE(ir.Access(C, "d")))),
 	}
 	pc := []ir.Value{ir.Ent("T0", "a"), ir.Ent("T1", "g")}
 	ec := []ir.Value{ir.Ent("T1", "g"), ir.Ent("T0", "zz")}
